@@ -159,6 +159,34 @@ CLAIMED = {
          'reported rmse array is integer-typed and therefore truncated.'),
    technique='Lean 4 proof of the planners\' index algebra + recomposition of every optimizer output from direct calls of the real wrapped method',
    design='4.C17'),
+ 'C13': dict(
+   text=('Lean 4 theorems (PbVerif.Props.C13): soundness of an ownership discipline over a small-step calculus of NumPy buffers (views '
+         'alias, copies/fancy indexing/conversions create fresh buffers, in-place writes bump a version): if every write hits a buffer '
+         'created during the call, no caller buffer is ever written, returning or raising; exact characterisation of when the numerical '
+         'core receives the caller\'s own buffer (ndarray, no dtype conversion, ravel is a view, no copy_input, no sort order); and a '
+         'TABLE OBLIGATION re-checked on every run against an AST scan of the current source (translator): every in-place write '
+         '(setitem, augmented assignment, out=, overwrite_*, mutating methods) found in a registered method targets a fresh local or an '
+         'input that `_setup_*` was asked to copy. Correspondence: every method (1-D/2-D) x every array/dict argument x layouts '
+         '(contiguous, strided view, read-only, list, column, row, float32) x sorted/unsorted x x returning/raising calls with byte '
+         'snapshots of all caller objects (incl. backing stores and dict contents); observed np.shares_memory between caller arrays and '
+         'what the core receives vs the Lean aliasing model.'),
+   note=('Trusted: Lean kernel; axioms propext, Quot.sound; translate.gen_inplace (scanner; helper functions outside the registered '
+         'method bodies are covered only dynamically); harness. Partial: completeness of the scan is not proved.'),
+   technique='Lean 4 soundness proof of an ownership calculus + decide over an in-place-write table translated from the source each run + snapshot correspondence',
+   design='4.C13'),
+ 'C16': dict(
+   text=('Lean 4 theorems (PbVerif.Props.C16): shape canonicalisation maps (N,), (N,1), (1,N) (2-D: (M,N), (M,N,1), (1,M,N), (M,1,N)) to '
+         'the same canonical shape, is idempotent and keeps the values in order; dtype rule; after its first call an x-less object '
+         'behaves exactly like one built with linspace(-1,1,N) (refinement theorem of the cache model), which is strictly increasing '
+         'from -1 to 1; the module-level wrapper forwards the same bound arguments for every positional/keyword split; name lookup is '
+         'case-insensitive and total on the registry. Correspondence over all 95 methods: list/tuple/column/row/strided/Fortran/'
+         'float32/int64 data, x and z as list/float32/column/strided, per-point arguments as list/column/float32/strided/int, explicit '
+         'output_dtype, omitted x (and z), method names in other letter cases (also the wrapped-method names of optimizers), the '
+         'functional interface with positional and keyword data: each variant must equal the reference call cast to the documented '
+         'dtype bit for bit (memory-layout variants and explicit output dtypes: to rounding).'),
+   note=('Trusted: Lean kernel; axioms propext, Classical.choice, Quot.sound; harness; NumPy conversions and casts themselves.'),
+   technique='Lean 4 proof of the container-independent wrapper logic + bit-exact differential correspondence over input variants of every method',
+   design='4.C16'),
 }
 
 checks = []
